@@ -34,7 +34,9 @@ def compile_text(text):
     return compiler.compile_prolog_from_string(text, Ctx)
 
 
-def to_engine(yp, t, varmap):
+def to_engine(yp, t, varmap, dots='listpair'):
+    """dots: how a two-argument compound named '.' is built - with yp.listpair (as list syntax does)
+    or with yp.functor('.', [h, t]) (as '.'(H,T) does); both are the same term"""
     k = t[0]
     if k == 'a':
         return yp.atom(t[1])
@@ -46,8 +48,8 @@ def to_engine(yp, t, varmap):
             v = varmap[t[1]] = yp.variable()
         return v
     if k == 'f':
-        args = [to_engine(yp, a, varmap) for a in t[2]]
-        if t[1] == '.' and len(args) == 2:
+        args = [to_engine(yp, a, varmap, dots) for a in t[2]]
+        if t[1] == '.' and len(args) == 2 and dots == 'listpair':
             return yp.listpair(args[0], args[1])
         return yp.functor(t[1], args)
     raise ValueError(t)
